@@ -34,6 +34,7 @@ def run(ctx):
         name = FAMS[i % len(FAMS)]
         n = r.randint(2, nmax)
         fam, rows = families.build(r, name, n, floats=r.random() < 0.3)
+        n = len(rows)
         desc = dict(fam.describe(), rows=rows.tolist())
         est = fam.make()
         try:
